@@ -47,7 +47,16 @@ MINOR = ("Cc", "Zs", "Pd", "Nd", "Lu", "Pc", "Ll", "Ll", "So")     # must equal 
 TLC_WORKERS = 4      # per TLC run; TLC_PAR runs at a time (JVM start-up dominates the small models)
 TLC_PAR = 4
 PROCS = 16
-RE_FLAGS = {'': 0, 's': re.S, 'm': re.M, 'i': re.I, 'x': re.X}
+class _ReFlags(dict):
+    """flag string ('', 'i', 'is', 'imsx', 'si', 'ii' ..) -> re flags: the letters compose"""
+    def __missing__(self, key):
+        v = 0
+        for c in key:
+            v |= {'s': re.S, 'm': re.M, 'i': re.I, 'x': re.X}[c]
+        return v
+
+
+RE_FLAGS = _ReFlags()
 
 
 def subj(t) -> str:
@@ -476,7 +485,7 @@ CLASS_CONFIGS = {
     'thorough': [
         ('items', '1.0', dict(ItemNames=ALL_ITEMS | {"pLl", "PLl", "PNd", "pN", "PN", "pPd", "PPd", "pPc", "pZ", "PZ",
                                                       "pC", "PC", "PCc", "pSo", "PSo", "_-AS", "a-a"},
-                              ItemNames3={"a", "5", "AS", "D", "S", "PL"},
+                              ItemNames3={"a", "5", "D", "PL"},
                               SubNames=set(), MaxItems=3, MaxSubItems=1), 16, 4),
         ('items11', '1.1', dict(ItemNames=ALL_ITEMS, ItemNames3={"a", "AS", "i", "I", "c", "C", "D", "d"},
                                 SubNames=set(), MaxItems=3, MaxSubItems=1), 16, 4),
@@ -544,7 +553,7 @@ NATIVE_OK = {'chr', 'any', 'cls', 'esc', 'cat', 'alt', 'star', 'plus', 'opt', 'r
 
 def native_supported(r, flag: str) -> bool:
     """fragment that Python's re supports natively with identical meaning"""
-    if flag not in ('', 's', 'i'):
+    if set(flag) - set('si'):
         return False
     for x in walk(r):
         if x['t'] not in NATIVE_OK:
@@ -603,8 +612,8 @@ def ast_worker(job):
         types = node_types(r)
         bag.add('patterns')
         nontrivial = 0
-        sep = ' ' if flag == 'x' else ''
-        if flag == 'x' and has_space(r):
+        sep = ' ' if 'x' in flag else ''
+        if 'x' in flag and has_space(r):
             bag.add('skipped_x_space')
             continue
         # --- XPath mode: translate_pattern defaults, re.search / re.fullmatch
@@ -718,6 +727,14 @@ AST_CONFIGS = {
         ('xsd11', '', '1.1', dict(AtomNames={"i", "I", "c", "C", "AS", "a", "w", "HY"}, OperandNames={"a", "AS"}, OperandDepth=0,
                                   Unaries={"star", "rep2", "grp"}, Unaries2=set(), Binaries={"cat", "alt"}, MaxDepth=1,
                                   SubjChars={3, 4, 7, 9}, MaxLen=2), 8, True),
+        # flag COMBINATIONS (letters compose; order and repetition are irrelevant): category escapes, case-sensitive
+        # classes, '.', anchors and back-references under i + s / m / x
+    ] + [
+        ('flags-' + f, f, '1.0', dict(AtomNames={"a", "A", "pLu", "PLu", "pLl", "c_A", "c_nA", "any", "NL", "bol", "eol"},
+                                      OperandNames={"a", "NL"}, OperandDepth=0, Unaries={"plus", "dup"}, Unaries2=set(),
+                                      Binaries={"cat", "alt"}, MaxDepth=1, SubjChars={1, 5, 7}, MaxLen=3), 4, False)
+        for f in ('is', 'imsx', 'si', 'ix')
+    ] + [
         # quantifiers with multi-digit bounds on an atom, a class and a group; subjects a^0 .. a^13
         ('bigrep', '', '1.0', dict(AtomNames={"a", "c_ab", "any"}, OperandNames={"a"}, OperandDepth=0,
                                    Unaries={"grp", "rep10", "rep2_10", "rep9_10", "rep3_12", "rep0_11", "rep10U", "rep2_10L"},
@@ -743,6 +760,12 @@ AST_CONFIGS['thorough'] = AST_CONFIGS['quick'][2:] + [
     ('backref12', 'i', '1.0', dict(AtomNames={"a", "r12_125", "r12_1255", "r12_155", "r12_1155", "r2_255", "r1_155"},
                                    OperandNames={"a"}, OperandDepth=0, Unaries=set(), Unaries2=set(),
                                    Binaries={"cat", "alt"}, MaxDepth=1, SubjChars={4, 5, 7, 8}, MaxLen=5), 2, False),
+] + [
+    ('flags-' + f, f, '1.0', dict(AtomNames={"a", "A", "b", "pLu", "PLu", "pLl", "c_A", "c_nA", "any", "NL", "bol", "eol"},
+                                  OperandNames={"a", "NL", "A"}, OperandDepth=0, Unaries={"plus", "dup", "opt"}, Unaries2=set(),
+                                  Binaries={"cat", "alt"}, MaxDepth=1, SubjChars={1, 5, 7, 8}, MaxLen=3), 4, False)
+    for f in ('im', 'ims', 'sx', 'ii', 'sm')
+] + [
     ('deep-m', 'm', '1.0', dict(AtomNames={"a", "NL", "bol", "eol"}, OperandNames={"a", "NL", "bol", "eol"},
                                 OperandDepth=1, Unaries={"star", "opt", "plus"}, Unaries2={"star", "opt", "plus"},
                                 Binaries={"cat", "alt"}, MaxDepth=2, SubjChars={1, 7}, MaxLen=4), 64, False),
@@ -837,12 +860,12 @@ def _fns_worker(flag, ver, states, binding):
     parsers, root = _api()
     bag = Bag()
     t_cpu = time.process_time()
-    for r, s, nullable, found, adm, ginfo in states:
+    for r, s, nullable, found, adm, ginfo, valid in states:
         types = node_types(r)
         p = render(r, '(?:')
         text = subj(s)
         h = zlib.crc32((p + '|' + text).encode())
-        base = dict(kind='fns', flag=flag, binding=binding, has_group=bool(types & {'grp', 'dup'}),
+        base = dict(kind='fns', flag=flag, xsd_version=ver, binding=binding, has_group=bool(types & {'grp', 'dup'}),
                     has_anchor=bool(types & {'bol', 'eol'}),
                     # a capturing group that contains an optional capturing group
                     # a capturing group inside a repetition (its last capture may lie anywhere in the match)
@@ -862,6 +885,18 @@ def _fns_worker(flag, ver, states, binding):
         versions = ('3.1', '2.0') if h % 4 == 0 else ('3.1',)
         for version in versions:
             pv = p if version != '2.0' else render(r, '(')
+            if not valid:
+                # not a pattern of this XSD version: the same verdict, FORX0002, from all four functions
+                for fn, expr in (('matches', 'matches($s,$p,$f)'), ('tokenize', 'tokenize($s,$p,$f)'),
+                                 ('replace', "replace($s,$p,'X',$f)"), ('analyze-string', 'analyze-string($s,$p,$f)')):
+                    if fn == 'analyze-string' and version == '2.0':
+                        continue
+                    res = xpath_call(expr, version, ver, s=text, p=pv, f=flag)
+                    bag.add('evaluations')
+                    if not (isinstance(res, tuple) and res[:2] == ('err', 'FORX0002')):
+                        bad(fn, 'invalid-pattern', version, 'err:FORX0002', res if isinstance(res, tuple) else 'a result',
+                            f"{fn}({text!r}, {pv!r}) with an XSD {ver} parser: the pattern is not valid, FORX0002 is required")
+                continue
             m = fn_matches(text, pv, flag, version, ver)
             bag.add('evaluations')
             if m is not found:
@@ -973,6 +1008,12 @@ FNS_CONFIGS = {
         # groups that take part in a match with an empty capture, in every position, next to ungrouped matched text
         ('emptygroups', '', dict(PatAtoms={"a", "b", "g_bs", "g_bo", "g_e", "g_ae", "g_mid", "g_mid2", "g_altp", "g_in", "g_nest"},
                                  PatUnaries={"grp", "opt"}, PatBinaries={"cat", "alt"}, PatDepth=1, SubjChars={7, 8}, MaxLen=3)),
+        # the XSD version of the PARSER as a dimension of the four functions: \\p{IsNoSuchBlock} is an error under
+        # XSD 1.0 (FORX0002 from all four) and matches every character under XSD 1.1
+        ('xsd10', '', dict(PatAtoms={"a", "b", "pIsX"}, PatUnaries={"plus"}, PatBinaries={"cat", "alt"},
+                           PatDepth=1, SubjChars={7, 8}, MaxLen=3), '1.0'),
+        ('xsd11', '', dict(PatAtoms={"a", "b", "pIsX"}, PatUnaries={"plus"}, PatBinaries={"cat", "alt"},
+                           PatDepth=1, SubjChars={7, 8}, MaxLen=3), '1.1'),
         ('anchors', '', dict(PatAtoms={"a", "NL", "bol", "eol"}, PatUnaries={"plus", "opt"}, PatBinaries={"cat", "alt"},
                              PatDepth=1, SubjChars={1, 7}, MaxLen=3)),
         ('anchors-m', 'm', dict(PatAtoms={"a", "NL", "bol", "eol"}, PatUnaries={"plus", "opt"}, PatBinaries={"cat", "alt"},
@@ -992,26 +1033,27 @@ FNS_CONFIGS['thorough'] = FNS_CONFIGS['quick'] + [
 
 
 def jobs_fns(chk: core.Check) -> list:
-    return [(f'RegexFns/{name}', 'RegexFns', dict(XsdVersion='1.0', Flag=flag, **consts), ['Laws'],
-             os.path.join(chk.scratch, f'fns-{name}')) for name, flag, consts in FNS_CONFIGS[chk.tier]]
+    return [(f'RegexFns/{name}', 'RegexFns', dict(XsdVersion=(ver or ['1.0'])[0], Flag=flag, **consts), ['Laws'],
+             os.path.join(chk.scratch, f'fns-{name}')) for name, flag, consts, *ver in FNS_CONFIGS[chk.tier]]
 
 
 def run_fns(chk: core.Check, totals: dict, done: dict) -> None:
-    for name, flag, consts in FNS_CONFIGS[chk.tier]:
+    for name, flag, consts, *xver in FNS_CONFIGS[chk.tier]:
+        ver = (xver or ['1.0'])[0]
         r, dot = done[f'RegexFns/{name}']
         chk.model(f'RegexFns/{name}', r)
         g = tla.load_dot(dot)
         os.remove(dot)
         states = [(st['r'], st['s'], st['nullable'], st['found'], tuple(st['adm']),
-                   tuple(dict(parent=gi['parent'], spans=frozenset(gi['spans'])) for gi in st['ginfo']))
+                   tuple(dict(parent=gi['parent'], spans=frozenset(gi['spans'])) for gi in st['ginfo']), st['valid'])
                   for st in g.states.values()]
         if not any(len(x[4]) > 1 for x in states) or not any(not x[3] for x in states):
             raise tla.MachineryError(f'RegexFns/{name}: vacuous (no ambiguous partition or no non-matching input)')
         states.sort(key=lambda x: (render(x[0]), x[1]))
-        jobs = [(flag, '1.0', states[k::48], {}) for k in range(48)]
+        jobs = [(flag, ver, states[k::48], {}) for k in range(48)]
         if name in XML_BINDING_CONFIGS:
             # the same vectors with a, b bound to the XML-significant characters & and <
-            jobs += [(flag, '1.0', states[k::16], XML_BINDING) for k in range(16)]
+            jobs += [(flag, ver, states[k::16], XML_BINDING) for k in range(16)]
         submit(fns_worker, [j for j in jobs if j[2]], lambda res: collect(chk, res, totals, 'fns'))
         chk.add('transitions', len(g.edges))
         chk.add('traces_validated_against_impl', len(g.edges))
@@ -1614,7 +1656,7 @@ def run(chk: core.Check) -> None:
         'RegexAst': [dict(name=n, flag=f, xsd_version=v, **{k: (sorted(x) if isinstance(x, set) else x) for k, x in c.items()})
                      for n, f, v, c, _, _ in AST_CONFIGS[chk.tier]],
         'RegexFns': [dict(name=n, flag=f, **{k: (sorted(x) if isinstance(x, set) else x) for k, x in c.items()})
-                     for n, f, c in FNS_CONFIGS[chk.tier]],
+                     for n, f, c, *_ in FNS_CONFIGS[chk.tier]],
         'RegexReplace': [{k: (sorted(x) if isinstance(x, set) else x) for k, x in REPLACE_CONFIGS[chk.tier].items()}],
         'RegexSyntax': [dict(name=n, mode=m, xsd_version=v, tokens=sorted(t), first=sorted(fi), max_tokens=k)
                         for n, m, v, t, fi, k, _ in SYNTAX_CONFIGS[chk.tier]],
